@@ -95,6 +95,9 @@ def m_isinstance(interp, args, kwargs):
     if isinstance(obj, SMap):
         import collections.abc as cabc
         return any(t in (dict, object, cabc.Mapping, cabc.MutableMapping, cabc.Iterable) for t in tps)
+    if isinstance(obj, SMapProxy):
+        import collections.abc as cabc
+        return any(t in (types.MappingProxyType, object, cabc.Mapping, cabc.Iterable) for t in tps)
     from .interp import Closure, BoundMethod
     if isinstance(obj, (Closure, BoundMethod)):
         return any(t in (object, types.FunctionType) for t in tps)
@@ -280,6 +283,8 @@ def m_dict(interp, args, kwargs):
         src = args[0]
         if isinstance(src, (SOpt, SChoice)):
             src = interp.resolve(src)
+        if isinstance(src, SMapProxy):
+            src = src.m
         if isinstance(src, SMap):
             if kwargs:
                 raise Unsupported('dict(SMap, **kw)')
@@ -712,6 +717,10 @@ def call_sym_method(interp, recv, name, args, kwargs):
         return slist_method(interp, recv, name, args, kwargs)
     if isinstance(recv, SMap):
         return smap_method(interp, recv, name, args, kwargs)
+    if isinstance(recv, SMapProxy):
+        if name not in _PROXY_READS:
+            raise _pyraise(AttributeError("'mappingproxy' object has no attribute %r" % name))
+        return smap_method(interp, recv.m, name, args, kwargs)
     if isinstance(recv, SInt):
         if name == 'bit_length':
             raise Unsupported('bit_length')
@@ -726,6 +735,8 @@ def sym_getitem(interp, obj, idx):
         return slist_getitem(interp, obj, idx)
     if isinstance(obj, SMap):
         return obj.getitem(interp, idx)
+    if isinstance(obj, SMapProxy):
+        return obj.m.getitem(interp, idx)
     raise Unsupported('getitem on %r' % (obj,))
 
 
@@ -1078,6 +1089,31 @@ def smap_method(interp, m, name, args, kwargs):
     raise Unsupported('method %s on symbolic map' % name)
 
 
+class SMapProxy:
+    """types.MappingProxyType over a symbolic map: a live read-only view."""
+
+    def __init__(self, m):
+        self.m = m
+
+
+@model(types.MappingProxyType)
+def m_mappingproxy(interp, args, kwargs):
+    (x,) = args
+    if isinstance(x, (SOpt, SChoice)):
+        x = interp.resolve(x)
+    if isinstance(x, SMap):
+        return SMapProxy(x)
+    if isinstance(x, SMapProxy):
+        return SMapProxy(x.m)
+    try:
+        return types.MappingProxyType(x)
+    except Exception as e:
+        raise _pyraise(e)
+
+
+_PROXY_READS = ('get', 'copy', '__contains__', '__getitem__', 'keys')
+
+
 class SMapKeys:
     """`d.keys()` of a symbolic map: supports only membership."""
 
@@ -1085,11 +1121,15 @@ class SMapKeys:
         self.m = m
 
 
-def havoc_mutable(interp, v, tag, depth=2):
+def havoc_mutable(interp, v, tag, depth=3):
     """Forget the contents of the mutable symbolic state reachable from ``v`` (in place)."""
     if isinstance(v, SMap):
         v.havoc(interp, tag)
         return True
+    if isinstance(v, SOpt):
+        return havoc_mutable(interp, v.val, tag, depth)
+    if isinstance(v, SMapProxy):
+        return False        # a read-only view: the map is changed through the map itself
     done = False
     if depth > 0 and not isinstance(v, (Sym, Opaque, OpaqueVal, type, types.ModuleType, types.FunctionType)):
         d = getattr(v, '__dict__', None)
@@ -1099,7 +1139,7 @@ def havoc_mutable(interp, v, tag, depth=2):
     return done
 
 
-def reachable_smaps(v, depth=2, path='', out=None, seen=None):
+def reachable_smaps(v, depth=3, path='', out=None, seen=None):
     """(path, SMap) pairs reachable from ``v`` through instance attributes."""
     out = [] if out is None else out
     seen = set() if seen is None else seen
@@ -1108,6 +1148,10 @@ def reachable_smaps(v, depth=2, path='', out=None, seen=None):
     seen.add(id(v))
     if isinstance(v, SMap):
         out.append((path, v))
+    elif isinstance(v, SOpt):
+        reachable_smaps(v.val, depth, path + '?', out, seen)
+    elif isinstance(v, SMapProxy):
+        reachable_smaps(v.m, depth, path + '.<view>', out, seen)
     elif depth > 0 and not isinstance(v, (Sym, Opaque, OpaqueVal, type, types.ModuleType, types.FunctionType)):
         d = getattr(v, '__dict__', None)
         if isinstance(d, dict):
@@ -1335,8 +1379,10 @@ def call_recursive_spec(interp, fn, args, kwargs):
     parts = [_ghost_arg(a) for a in args]
     terms = [t for _, ts in parts for t in ts]
     name = 'rec.%s@%s' % (fn.__qualname__, '|'.join(p for p, _ in parts))
-    u = z3.Function(name, *([t.sort() for t in terms] + [z3.BoolSort()])) if terms else None
-    app = u(*terms) if terms else z3.Bool(name)
+    kind = getattr(fn, '_pv_recursive', 'bool')
+    rsort = {'bool': z3.BoolSort, 'str': z3.StringSort, 'int': z3.IntSort}[kind if kind in ('str', 'int') else 'bool']()
+    u = z3.Function(name, *([t.sort() for t in terms] + [rsort])) if terms else None
+    app = u(*terms) if terms else z3.Const(name, rsort)
     active = st.ghost.setdefault('@rec-active', [])
     done = st.ghost.setdefault('@rec-unfolded', set())
     key = (name, tuple(z3.simplify(t).sexpr() for t in terms))
@@ -1346,10 +1392,17 @@ def call_recursive_spec(interp, fn, args, kwargs):
         done.add(key)
     active.append(fn)
     try:
-        body = interp.truth(interp.call_real_function(fn, args, {}))
+        body = interp.call_real_function(fn, args, {})
+        if isinstance(body, (SOpt, SChoice)):
+            body = interp.resolve(body)
+        if kind not in ('str', 'int'):
+            body = interp.truth(body)
     finally:
         active.pop()
-    st.assume(app == to_z3(body))
+    bt = to_z3(body)
+    if bt.sort() != rsort:
+        raise Unsupported('recursive spec function %s: result is not of the declared kind' % fn.__qualname__)
+    st.assume(app == bt)
     return wrap(app)
 
 
